@@ -97,7 +97,15 @@ def check(repo, tier):
                 sc.old = (list(psi._attrs['cores']), list(psi._attrs['ranks']))
                 sc.nsamp = sc.atom('nsamp')
                 return sc.call(ENTRY, psi, list(meas), sc.nsamp)
-            for ch, sc, res, exc in l2.explore(repo, body, typed=True):
+            try:
+                paths_ = l2.explore(repo, body, typed=True)
+            except AnalysisError as ae_:
+                sc_ = getattr(ae_, 'scenario', None)
+                if sc_ is not None:
+                    _floor_rule(run, repo, sc_, scen, F)          # (decided by recorded events alone; the rest of this scenario stays undecided)
+                raise
+            for ch, sc, res, exc in paths_:
+                _floor_rule(run, repo, sc, scen, F)
                 if exc is not None:
                     run.oblige('D5', (ENTRY, scen, 'returns'), False)
                     l2rules.raised_finding(run, 'C20', 'D5', repo, ENTRY, scen, exc)
@@ -482,3 +490,21 @@ def _value_rules(run, repo, sc, scen, F):
             raise AnalysisError(f'{scen}: the real part of a complex array is taken at {where} and the analysis cannot tell whether its bonds are all closed')
         else:
             run.oblige('D4', (where, cons, scen, 'real part'), True)
+
+
+def _floor_rule(run, repo, sc, scen, F):
+    """D5 (every sample is drawn): a loop over  number_of_samples // B  blocks leaves the last  number_of_samples mod B  rows of the sample matrix untouched -- they stay
+    0 and are counted as the all-zero bit string -- unless the code looks at the remainder somewhere (then: not decided here)"""
+    fds = [e for e in sc.events('floor-div') if e.get('fn') is not None and e['fn'].mod == MOD and sz_eq(e['dividend'], sc.nsamp)]
+    if not fds:
+        return
+    if sc.events('size-mod'):
+        raise AnalysisError(f'{scen}: the samples are processed in blocks and the remainder is computed somewhere: whether it is handled is not decided')
+    looped = [e for e in sc.events('floor-range') if any(sz_eq(e['count'], f_['quotient']) for f_ in fds)]
+    for f_ in fds:
+        if not any(sz_eq(e['count'], f_['quotient']) for e in looped):
+            continue
+        where, cons, fl_, ln = l2rules.ev_where(repo, f_, None)
+        run.oblige('D5', (where, cons, 'every sample drawn'), False)
+        run.add(Finding('C20', 'D5', where, cons, f'{scen}: the samples are drawn in {f_["dividend"]} // {f_["divisor"]} blocks of {f_["divisor"]}: the last {f_["dividend"]} mod {f_["divisor"]} rows of the '
+                        'sample matrix are never drawn -- they stay 0 and are counted as the all-zero bit string (the frequencies still sum to one)', fl_, ln))
